@@ -1,2 +1,502 @@
+//! C04 — BBS proof soundness: only statements backed by a signature verify.
+//! Workload A: single edits of honest proofs / statements. Workload B: forgeries assembled from
+//! public information only (degenerate-element families), through octets and through serde.
+
+use crate::api::*;
 use crate::common::*;
-pub fn scenarios(_ctx: &Ctx) -> Vec<Scenario> { vec![] }
+use crate::refimpl::{self as rf, SuiteId};
+use bls12_381_plus::{G1Projective, G2Projective, Scalar};
+use ff::Field;
+use group::Group;
+use rand::RngCore;
+use serde_json::{json, Value};
+
+pub fn rand_scalar(r: &mut impl RngCore) -> Scalar {
+    rf::os2ip_mod_r(&rand_bytes(r, 48))
+}
+
+struct Honest {
+    pk: BBSplusPublicKey,
+    hdr: Hdr,
+    ph: Hdr,
+    msgs: Vec<Vec<u8>>,
+    d: Vec<usize>,
+    proof: Vec<u8>,
+}
+
+/// verify `proof` octets against a statement; anything but Ok is fine.
+fn must_reject<X: Sx>(
+    ctx: &Ctx,
+    kind: &str,
+    case: &str,
+    pk: &BBSplusPublicKey,
+    proof: &[u8],
+    dm: &[Vec<u8>],
+    di: &[usize],
+    hdr: Option<&[u8]>,
+    ph: Option<&[u8]>,
+    extra: Value,
+) {
+    ctx.distinct(case);
+    let dec = ctx.call("from_bytes", case, None, || Pok::<X>::from_bytes(proof));
+    let Some(p) = dec.value else { return };
+    let v = ctx.call("proof_verify", case, None, || p.proof_verify(pk, Some(dm), Some(di), hdr, ph));
+    if v.outcome.is_ok() {
+        ctx.violation(
+            &format!("C04:accepted/{}", kind),
+            json!({"case":case,"pk":hx_full(&pk.to_bytes()),"proof":hx_full(proof),"disclosed_messages":msgs_json(dm),
+                   "disclosed_indexes":di.iter().map(|i| i.to_string()).collect::<Vec<_>>(),"header":hdr.map(hx),"ph":ph.map(hx),"extra":extra}),
+        );
+    }
+    if v.outcome.is_panic() {
+        ctx.count("panics_seen(counted as not accepted; C08 judges them)", 1);
+    }
+}
+
+fn edits<X: Sx>(ctx: &Ctx, idx: u64, l: usize, d: Vec<usize>, all_flips: bool) {
+    let mut r = ctx.rng("c04a", idx);
+    let (sk, pk) = keypair::<X>(&mut r);
+    let msgs = gen_messages(&mut r, l, 0);
+    let hdr = Hdr::gen(&mut r, &[1, 20]);
+    let ph = Hdr::gen(&mut r, &[1, 20]);
+    let Some(sig) = ctx.call("sign", "honest", None, || Sig::<X>::sign(Some(&msgs), &sk, &pk, hdr.as_opt())).value else {
+        ctx.inconclusive("C04: honest sign failed");
+        return;
+    };
+    let Some(proof) = ctx.call("proof_gen", "honest", None, || Pok::<X>::proof_gen(&pk, &sig.to_bytes(), hdr.as_opt(), ph.as_opt(), Some(&msgs), Some(&d))).value else {
+        ctx.inconclusive("C04: honest proof_gen failed (C03's business)");
+        return;
+    };
+    let dm: Vec<Vec<u8>> = d.iter().map(|&i| msgs[i].clone()).collect();
+    if !ctx.call("proof_verify", "honest", None, || proof.proof_verify(&pk, Some(&dm), Some(&d), hdr.as_opt(), ph.as_opt())).outcome.is_ok() {
+        ctx.inconclusive("C04: honest proof did not verify (C03's business)");
+        return;
+    }
+    let h = Honest { pk, hdr, ph, msgs, d, proof: proof.to_bytes() };
+    let mask: String = (0..l).map(|i| if h.d.contains(&i) { '1' } else { '0' }).collect();
+    let base = format!("{}/L{}/D={}", name::<X>(), l, mask);
+    let (ho, po) = (h.hdr.as_opt(), h.ph.as_opt());
+    let rj = |kind: &str, pos: String, pk: &BBSplusPublicKey, proof: &[u8], dm: &[Vec<u8>], di: &[usize], hd: Option<&[u8]>, p: Option<&[u8]>| {
+        must_reject::<X>(ctx, kind, &format!("{}/{}/{}", base, kind, pos), pk, proof, dm, di, hd, p, json!({"honest_disclosed":h.d,"L":l}));
+    };
+    let rr = h.d.len();
+    // disclosed message altered
+    for k in 0..rr {
+        let mut m = dm.clone();
+        if m[k].is_empty() { m[k].push(0) } else { m[k][0] ^= 1 }
+        rj("disclosed-msg-altered", format!("{k}"), &h.pk, &h.proof, &m, &h.d, ho, po);
+        let mut m = dm.clone();
+        m[k] = rand_bytes(&mut r, 32);
+        rj("disclosed-msg-replaced", format!("{k}"), &h.pk, &h.proof, &m, &h.d, ho, po);
+    }
+    // disclosed index moved to every other position, out of range, usize::MAX
+    for k in 0..rr {
+        for to in (0..l + 2).chain([usize::MAX - 1, usize::MAX, 1 << 32]) {
+            if to == h.d[k] {
+                continue;
+            }
+            let mut di = h.d.clone();
+            di[k] = to;
+            rj("disclosed-index-moved", format!("{k}->{to}"), &h.pk, &h.proof, &dm, &di, ho, po);
+        }
+    }
+    // two disclosed messages swapped (messages only; indexes only)
+    for a in 0..rr {
+        for b in a + 1..rr {
+            if dm[a] != dm[b] {
+                let mut m = dm.clone();
+                m.swap(a, b);
+                rj("disclosed-msgs-swapped", format!("{a}-{b}"), &h.pk, &h.proof, &m, &h.d, ho, po);
+            }
+        }
+    }
+    // one disclosed pair dropped / one (true) pair added for a hidden position / bogus pair added
+    for k in 0..rr {
+        let mut m = dm.clone();
+        let mut di = h.d.clone();
+        m.remove(k);
+        di.remove(k);
+        rj("disclosed-pair-dropped", format!("{k}"), &h.pk, &h.proof, &m, &di, ho, po);
+    }
+    for j in (0..l).filter(|j| !h.d.contains(j)) {
+        let mut pairs: Vec<(usize, Vec<u8>)> = h.d.iter().copied().zip(dm.iter().cloned()).collect();
+        pairs.push((j, h.msgs[j].clone()));
+        pairs.sort();
+        let di: Vec<usize> = pairs.iter().map(|p| p.0).collect();
+        let m: Vec<Vec<u8>> = pairs.into_iter().map(|p| p.1).collect();
+        rj("hidden-pair-added", format!("{j}"), &h.pk, &h.proof, &m, &di, ho, po);
+    }
+    {
+        let mut m = dm.clone();
+        let mut di = h.d.clone();
+        m.push(rand_bytes(&mut r, 4));
+        di.push(l);
+        rj("pair-appended", "L".into(), &h.pk, &h.proof, &m, &di, ho, po);
+        // mismatching counts
+        if rr > 0 {
+            rj("msg-count-mismatch", "-1".into(), &h.pk, &h.proof, &dm[..rr - 1].to_vec(), &h.d, ho, po);
+            rj("idx-count-mismatch", "-1".into(), &h.pk, &h.proof, &dm, &h.d[..rr - 1].to_vec(), ho, po);
+        }
+    }
+    // header / ph edits (octet-string inequality; None == empty)
+    for (which, cur) in [("header", h.hdr.octets().to_vec()), ("ph", h.ph.octets().to_vec())] {
+        let mut alts: Vec<Vec<u8>> = vec![];
+        if !cur.is_empty() {
+            let mut x = cur.clone();
+            x[0] ^= 0x80;
+            alts.push(x);
+            alts.push(cur[..cur.len() - 1].to_vec());
+            alts.push(vec![]);
+        } else {
+            alts.push(vec![0]);
+            alts.push(rand_bytes(&mut r, 16));
+        }
+        let mut x = cur.clone();
+        x.push(0);
+        alts.push(x);
+        for (n, a) in alts.iter().enumerate() {
+            if which == "header" {
+                rj("header-edited", format!("{n}"), &h.pk, &h.proof, &dm, &h.d, Some(a), po);
+            } else {
+                rj("ph-edited", format!("{n}"), &h.pk, &h.proof, &dm, &h.d, ho, Some(a));
+            }
+        }
+    }
+    // header and ph exchanged
+    if h.hdr.octets() != h.ph.octets() {
+        rj("header-ph-exchanged", "-".into(), &h.pk, &h.proof, &dm, &h.d, Some(h.ph.octets()), Some(h.hdr.octets()));
+    }
+    // other keys
+    let (_, pk2) = keypair::<X>(&mut r);
+    rj("pk-other", "-".into(), &pk2, &h.proof, &dm, &h.d, ho, po);
+    rj("pk-negated", "-".into(), &BBSplusPublicKey(-h.pk.0), &h.proof, &dm, &h.d, ho, po);
+    rj("pk-identity", "-".into(), &BBSplusPublicKey(G2Projective::IDENTITY), &h.proof, &dm, &h.d, ho, po);
+    rj("pk-generator", "-".into(), &BBSplusPublicKey(G2Projective::GENERATOR), &h.proof, &dm, &h.d, ho, po);
+    // proof bit flips
+    let nbits = h.proof.len() * 8;
+    let flips: Vec<usize> = if all_flips { (0..nbits).collect() } else { (0..48).map(|_| rand_range(&mut r, nbits)).collect() };
+    for b in flips {
+        let mut p = h.proof.clone();
+        p[b / 8] ^= 1 << (b % 8);
+        rj("proof-bitflip", format!("{b}"), &h.pk, &p, &dm, &h.d, ho, po);
+    }
+    if all_flips {
+        ctx.count("proofs_with_all_bit_flips", 1);
+    }
+    // truncation / extension by whole scalars
+    for k in 1..=3usize {
+        if h.proof.len() >= 272 + 32 * k {
+            rj("proof-truncated", format!("{k}"), &h.pk, &h.proof[..h.proof.len() - 32 * k], &dm, &h.d, ho, po);
+            // drop k m^ values but keep the challenge
+            let mut p = h.proof[..h.proof.len() - 32 * (k + 1)].to_vec();
+            p.extend_from_slice(&h.proof[h.proof.len() - 32..]);
+            rj("proof-mcap-removed", format!("{k}"), &h.pk, &p, &dm, &h.d, ho, po);
+        }
+        for (fill, name) in [(vec![0u8; 32], "zero"), (rf::scalar_be(&rand_scalar(&mut r)).to_vec(), "random"), (h.proof[h.proof.len() - 32..].to_vec(), "copy")] {
+            let mut p = h.proof.clone();
+            for _ in 0..k {
+                p.extend_from_slice(&fill);
+            }
+            rj("proof-extended-after", format!("{k}{name}"), &h.pk, &p, &dm, &h.d, ho, po);
+            let mut p = h.proof[..h.proof.len() - 32].to_vec();
+            for _ in 0..k {
+                p.extend_from_slice(&fill);
+            }
+            p.extend_from_slice(&h.proof[h.proof.len() - 32..]);
+            rj("proof-extended-before-challenge", format!("{k}{name}"), &h.pk, &p, &dm, &h.d, ho, po);
+        }
+    }
+    // truncation by non-scalar amounts
+    for cut in [1usize, 31, 33] {
+        if h.proof.len() > 272 + cut {
+            rj("proof-truncated-bytes", format!("{cut}"), &h.pk, &h.proof[..h.proof.len() - cut], &dm, &h.d, ho, po);
+        }
+    }
+    ctx.sample(json!({"workload":"A","honest":{"suite":name::<X>(),"L":l,"disclosed":h.d,"proof_len":h.proof.len()},"all_bit_flips":all_flips}));
+}
+
+// ---------------------------------------------------------------- workload B: forgeries
+
+/// Flat statement the adversary wants to have accepted.
+pub struct Stmt {
+    pub s: SuiteId,
+    pub api: Vec<u8>,
+    pub gens: Vec<G1Projective>,
+    pub pk: G2Projective,
+    pub header: Vec<u8>,
+    pub ph: Vec<u8>,
+    pub disclosed: Vec<(usize, Scalar)>,
+    pub u: usize,
+}
+
+impl Stmt {
+    fn domain(&self) -> Scalar {
+        rf::calculate_domain(self.s, &self.pk, &self.gens[0], &self.gens[1..], &self.header, &self.api).unwrap()
+    }
+    fn bv(&self) -> G1Projective {
+        let mut bv = self.s.p1() + self.gens[0] * self.domain();
+        for (i, m) in &self.disclosed {
+            bv += self.gens[1 + i] * m;
+        }
+        bv
+    }
+    fn undisclosed(&self) -> Vec<usize> {
+        let l = self.u + self.disclosed.len();
+        (0..l).filter(|i| !self.disclosed.iter().any(|(j, _)| j == i)).collect()
+    }
+    fn chal(&self, abar: &G1Projective, bbar: &G1Projective, d: &G1Projective, t1: &G1Projective, t2: &G1Projective) -> Scalar {
+        rf::challenge(self.s, &self.disclosed, abar, bbar, d, t1, t2, &self.domain(), &self.ph, &self.api).unwrap()
+    }
+}
+
+pub const FAMILIES: &[&str] = &[
+    "identity-AbarBbar/D=Bv",
+    "identity-AbarBbar/D=kBv",
+    "identity-all/one-shot",
+    "identity-D/guess",
+    "Abar=Bbar=P1",
+    "Abar=G/Bbar=G",
+    "Abar=-Bbar",
+    "identity-Abar-only",
+    "identity-Bbar-only",
+];
+
+/// Build a forged proof from public data only.
+pub fn forge(st: &Stmt, family: &str, r: &mut impl RngCore) -> rf::Proof {
+    let o = G1Projective::IDENTITY;
+    let bv = st.bv();
+    let und = st.undisclosed();
+    let e_cap = rand_scalar(r);
+    let r1_cap = rand_scalar(r);
+    let m_cap: Vec<Scalar> = (0..st.u).map(|_| rand_scalar(r)).collect();
+    let sum_m = |mc: &[Scalar]| {
+        let mut t = o;
+        for (k, &j) in und.iter().enumerate() {
+            t += st.gens[1 + j] * mc[k];
+        }
+        t
+    };
+    match family {
+        // T1 = D*r1^ ; T2 = sum H_j m^_j   (both independent of c) ; r3^ = -c/k
+        "identity-AbarBbar/D=Bv" | "identity-AbarBbar/D=kBv" => {
+            let k = if family.ends_with("kBv") { rand_scalar(r) } else { Scalar::ONE };
+            let d = bv * k;
+            let t1 = d * r1_cap;
+            let t2 = sum_m(&m_cap);
+            let c = st.chal(&o, &o, &d, &t1, &t2);
+            rf::Proof { Abar: o, Bbar: o, D: d, e_cap, r1_cap, r3_cap: -c * k.invert().unwrap(), m_cap, c }
+        }
+        _ => {
+            // one-shot guesses: fix (Abar, Bbar, D), compute T1/T2 with a guessed challenge, hash once
+            let p1 = st.s.p1();
+            let g = G1Projective::GENERATOR;
+            let x = g * rand_scalar(r);
+            let (abar, bbar, d) = match family {
+                "identity-all/one-shot" => (o, o, o),
+                "identity-D/guess" => (x, x * rand_scalar(r), o),
+                "Abar=Bbar=P1" => (p1, p1, bv),
+                "Abar=G/Bbar=G" => (g, g, bv),
+                "Abar=-Bbar" => (x, -x, bv),
+                "identity-Abar-only" => (o, x, bv),
+                "identity-Bbar-only" => (x, o, bv),
+                _ => unreachable!(),
+            };
+            let c0 = rand_scalar(r);
+            let r3_cap = -c0;
+            let t1 = bbar * c0 + abar * e_cap + d * r1_cap;
+            let t2 = bv * c0 + d * r3_cap + sum_m(&m_cap);
+            let c = st.chal(&abar, &bbar, &d, &t1, &t2);
+            rf::Proof { Abar: abar, Bbar: bbar, D: d, e_cap, r1_cap, r3_cap: -c, m_cap, c }
+        }
+    }
+}
+
+/// serde_json shape of a proof, taken from an honest proof and overwritten field by field.
+pub fn proof_json(template: &Value, p: &rf::Proof) -> Value {
+    let mut v = template.clone();
+    let inner = v.get_mut("BBSplus").unwrap();
+    let point = |p: &G1Projective| serde_json::to_value(p).unwrap();
+    let sc = |s: &Scalar| serde_json::to_value(s).unwrap();
+    inner["Abar"] = point(&p.Abar);
+    inner["Bbar"] = point(&p.Bbar);
+    inner["D"] = point(&p.D);
+    inner["e_cap"] = sc(&p.e_cap);
+    inner["r1_cap"] = sc(&p.r1_cap);
+    inner["r3_cap"] = sc(&p.r3_cap);
+    inner["m_cap"] = Value::Array(p.m_cap.iter().map(sc).collect());
+    inner["challenge"] = sc(&p.c);
+    v
+}
+
+fn forgeries<X: Sx>(ctx: &Ctx, idx: u64, u: usize, rcount: usize) {
+    let mut r = ctx.rng("c04b", idx);
+    // a key the harness never signs with (the forger does not even need the secret key)
+    let (_, victim_pk) = key_from_scalar(rand_scalar(&mut r));
+    let l = u + rcount;
+    // claimed messages and positions of the adversary's choice
+    let mut pos: Vec<usize> = (0..l).collect();
+    for i in (1..l).rev() {
+        let j = rand_range(&mut r, i + 1);
+        pos.swap(i, j);
+    }
+    let mut di: Vec<usize> = pos[..rcount].to_vec();
+    di.sort();
+    let dm: Vec<Vec<u8>> = (0..rcount).map(|k| format!("forged claim #{k}: admin=true").into_bytes()).collect();
+    let header = Hdr::gen(&mut r, &[12]);
+    let ph = Hdr::gen(&mut r, &[12]);
+    // template for the serde path
+    let template = {
+        let (sk, pk) = keypair::<X>(&mut r);
+        let m = vec![b"x".to_vec()];
+        let s = Sig::<X>::sign(Some(&m), &sk, &pk, None).unwrap();
+        serde_json::to_value(Pok::<X>::proof_gen(&pk, &s.to_bytes(), None, None, Some(&m), None).unwrap()).unwrap()
+    };
+    // ---- plain interface
+    {
+        let api = X::ID.api_id();
+        let st = Stmt {
+            s: X::ID,
+            gens: rf::create_generators(X::ID, l + 1, &api),
+            pk: victim_pk.0,
+            header: header.octets().to_vec(),
+            ph: ph.octets().to_vec(),
+            disclosed: di.iter().copied().zip(rf::messages_to_scalars(X::ID, &dm, &api).unwrap()).collect(),
+            u,
+            api,
+        };
+        for fam in FAMILIES {
+            let p = forge(&st, fam, &mut r);
+            let case = format!("{}/forgery/{}/U{}/R{}/octets", name::<X>(), fam, u, rcount);
+            must_reject::<X>(ctx, &format!("forgery/{fam}"), &case, &victim_pk, &p.to_bytes(), &dm, &di, header.as_opt(), ph.as_opt(), json!({"family":fam,"via":"octets"}));
+            // through serde
+            let case = format!("{}/forgery/{}/U{}/R{}/serde", name::<X>(), fam, u, rcount);
+            ctx.distinct(&case);
+            let j = proof_json(&template, &p);
+            let dec = ctx.call("serde_from_value", &case, None, || serde_json::from_value::<Pok<X>>(j.clone()));
+            if let Some(pp) = dec.value {
+                let v = ctx.call("proof_verify", &case, None, || pp.proof_verify(&victim_pk, Some(&dm), Some(&di), header.as_opt(), ph.as_opt()));
+                if v.outcome.is_ok() {
+                    ctx.violation(&format!("C04:accepted/forgery/{fam}"), json!({"case":case,"via":"serde","pk":hx_full(&victim_pk.to_bytes()),"proof_json":j,"claimed_messages":msgs_json(&dm),"claimed_indexes":di}));
+                }
+            }
+        }
+    }
+    // ---- blind interface: every split of the positions into signer part / blind slot / committed part
+    for ls in 0..l {
+        let m = l - 1 - ls;
+        // disclosed flat positions must avoid the blind-factor slot `ls`
+        if di.contains(&ls) {
+            continue;
+        }
+        let api = X::ID.blind_api_id();
+        let mut gens = rf::create_generators(X::ID, ls + 1, &api);
+        gens.extend(rf::blind_generators(X::ID, m + 1));
+        let st = Stmt {
+            s: X::ID,
+            gens,
+            pk: victim_pk.0,
+            header: header.octets().to_vec(),
+            ph: ph.octets().to_vec(),
+            disclosed: di.iter().copied().zip(rf::messages_to_scalars(X::ID, &dm, &api).unwrap()).collect(),
+            u,
+            api,
+        };
+        let (mut si, mut sm, mut ci, mut cm) = (vec![], vec![], vec![], vec![]);
+        for (k, &i) in di.iter().enumerate() {
+            if i < ls {
+                si.push(i);
+                sm.push(dm[k].clone());
+            } else {
+                ci.push(i - ls - 1);
+                cm.push(dm[k].clone());
+            }
+        }
+        for fam in &FAMILIES[..3] {
+            let p = forge(&st, fam, &mut r);
+            let case = format!("{}/blind-forgery/{}/U{}/R{}/Ls{}", name::<X>(), fam, u, rcount, ls);
+            ctx.distinct(&case);
+            let pb = p.to_bytes();
+            let dec = ctx.call("from_bytes", &case, None, || Pok::<X>::from_bytes(&pb));
+            let j = proof_json(&template, &p);
+            let dec2 = ctx.call("serde_from_value", &case, None, || serde_json::from_value::<Pok<X>>(j.clone()));
+            for pp in dec.value.into_iter().chain(dec2.value) {
+                let v = ctx.call("blind_proof_verify", &case, None, || {
+                    pp.blind_proof_verify(&victim_pk, header.as_opt(), ph.as_opt(), Some(ls), Some(&sm), Some(&cm), Some(&si), Some(&ci))
+                });
+                if v.outcome.is_ok() {
+                    ctx.violation(&format!("C04:accepted/blind-forgery/{fam}"), json!({"case":case,"pk":hx_full(&victim_pk.to_bytes()),"proof":hx_full(&pb),"L":ls,"signer":si,"committed":ci}));
+                }
+            }
+        }
+    }
+    ctx.sample(json!({"workload":"B","suite":name::<X>(),"U":u,"R":rcount,"claimed_indexes":di,"claimed_messages":msgs_json(&dm),"families":FAMILIES}));
+}
+
+/// identity injected into single positions / pairs of positions of an otherwise honest proof
+fn identity_injection<X: Sx>(ctx: &Ctx, idx: u64) {
+    let mut r = ctx.rng("c04c", idx);
+    let (sk, pk) = keypair::<X>(&mut r);
+    let l = 3;
+    let msgs = gen_messages(&mut r, l, 0);
+    let d = vec![1usize];
+    let sig = Sig::<X>::sign(Some(&msgs), &sk, &pk, None).unwrap();
+    let proof = Pok::<X>::proof_gen(&pk, &sig.to_bytes(), None, None, Some(&msgs), Some(&d)).unwrap();
+    let dm = vec![msgs[1].clone()];
+    let pb = proof.to_bytes();
+    let mut inf = [0u8; 48];
+    inf[0] = 0xc0;
+    for maskbits in 1..8u8 {
+        let mut p = pb.clone();
+        for k in 0..3 {
+            if maskbits >> k & 1 == 1 {
+                p[48 * k..48 * (k + 1)].copy_from_slice(&inf);
+            }
+        }
+        let case = format!("{}/identity-injected/mask{}", name::<X>(), maskbits);
+        must_reject::<X>(ctx, "identity-injected", &case, &pk, &p, &dm, &d, None, None, json!({"mask":maskbits}));
+    }
+}
+
+pub fn scenarios(ctx: &Ctx) -> Vec<Scenario> {
+    let mut v = Vec::new();
+    let mut idx = 0u64;
+    // workload A
+    let lmax_all = ctx.t(4usize, 5usize);
+    let mut flip_budget = ctx.t(2usize, 40usize); // per suite
+    for l in 0..=ctx.t(6usize, 8usize) {
+        let subsets: Vec<Vec<usize>> = if l <= lmax_all {
+            all_subsets(l)
+        } else {
+            let mut r = ctx.rng("c04-subsets", l as u64);
+            (0..ctx.t(4, 12)).map(|_| (0..l).filter(|_| r.next_u32() % 2 == 0).collect()).collect()
+        };
+        for (k, d) in subsets.into_iter().enumerate() {
+            let i = idx;
+            idx += 1;
+            let all = flip_budget > 0 && l >= 2 && k % 3 == 1;
+            if all {
+                flip_budget -= 1;
+            }
+            let (d1, d2) = (d.clone(), d);
+            v.push(scenario(format!("A/sha/L{l}/{k}"), move |c| edits::<Sha>(c, i, l, d1, all)));
+            v.push(scenario(format!("A/shake/L{l}/{k}"), move |c| edits::<Shake>(c, i, l, d2, all)));
+        }
+    }
+    // workload B
+    for u in 0..=3usize {
+        for rc in 0..=ctx.t(2usize, 4usize) {
+            for rep in 0..ctx.t(1, 4) {
+                let i = idx + rep;
+                v.push(scenario(format!("B/sha/U{u}/R{rc}"), move |c| forgeries::<Sha>(c, i, u, rc)));
+                v.push(scenario(format!("B/shake/U{u}/R{rc}"), move |c| forgeries::<Shake>(c, i, u, rc)));
+            }
+            idx += 10;
+        }
+    }
+    for rep in 0..ctx.t(2, 8) {
+        let i = idx + rep;
+        v.push(scenario("C/sha/identity-injection", move |c| identity_injection::<Sha>(c, i)));
+        v.push(scenario("C/shake/identity-injection", move |c| identity_injection::<Shake>(c, i)));
+    }
+    v
+}
